@@ -189,7 +189,17 @@ def check_curve(case, ctx):
             _ = [list(q) for q in crv.ctrlpts]
             if homog:
                 _ = list(crv.weights)
+        twin = None
+        if rnd == 0 and case["t"] % 2:
+            # the operation is applied to a deep copy; the curve it was copied from keeps its degree, net and views
+            import copy
+            twin, crv = crv, copy.deepcopy(crv)
         operations.degree_operations(crv, [t])
+        if twin is not None:
+            tp = [list(q) for q in twin.ctrlpts]
+            ok_t = twin.degree == p and len(tp) == p + 1 and (not homog or len(list(twin.weights)) == p + 1) and \
+                [list(q) for q in (twin.ctrlptsw if homog else twin.ctrlpts)] == [list(q) for q in pts]
+            ctx.check(ok_t, "curve-copy-source-changed", "after elevating a deep copy the source reports degree %r and %d control points (was %d, %d)" % (twin.degree, len(tp), p, p + 1))
         want = ref.bezier_elevate(pts, t)
         got = [list(q) for q in (crv.ctrlptsw if homog else crv.ctrlpts)]
         big = max(abs(c) for q in pts for c in q)
